@@ -43,7 +43,7 @@ theorem any_touch : ∀ (a : Arr), unionIdsOK a = true → ∀ (t : Target), isA
   | .null _, _, t, ht, i, d, h | .boolean _ _ _, _, t, ht, i, d, h | .prim _ _ _, _, t, ht, i, d, h
   | .time _ _ _ _, _, t, ht, i, d, h | .timestamp _ _ _ _, _, t, ht, i, d, h | .decimal128 _ _ _ _, _, t, ht, i, d, h
   | .bytes _ _ _ _, _, t, ht, i, d, h | .bytesView _ _ _ _, _, t, ht, i, d, h | .fixedSizeBinary _ _ _, _, t, ht, i, d, h =>
-    anyAt_touch ht (fun _ hs _ => touch_leaf t rfl (isSome_ok_lt_lenOf hs)) h
+    anyAt_touch ht (fun _ hs _ => touch_leaf t rfl (isSome_ok_leafIn rfl hs).1 (isSome_ok_leafIn rfl hs).2) h
   | .struct len v fs, hids, t, ht, i, d, h => by
     refine anyAt_touch ht (fun d hs h => ?_) h
     have hlt : i < len := by simpa only [lenOf] using isSome_ok_lt_lenOf hs
